@@ -5,13 +5,33 @@ import core
 from core import VERIF, CACHE
 
 
-def classify(codes):
-    """codes of one case: list of (step, code) -> summary"""
+CLASS_MASK = ~15
+
+
+def classify(codes, listed_bits):
+    """codes of one case: list of (step, code); listed_bits: class bits whose finding is
+    listed in known_findings.json.  A spec failure is 'known' only if one of its class
+    bits is listed.  -> (corr steps, unlisted spec failures, {bit: [steps]}, model-vs-spec)"""
     corr = [s for s, c in codes if c & 1]
-    prop = [s for s, c in codes if (c & 2) and not (c & 4)]
-    known = [s for s, c in codes if (c & 2) and (c & 4)]
-    model_bad = [s for s, c in codes if (c & 8) and not (c & 4)]
+    prop, known = [], {}
+    for s, c in codes:
+        if not (c & 2):
+            continue
+        hit = [b for b in listed_bits if c & b]
+        if hit:
+            for b in hit:
+                known.setdefault(b, []).append(s)
+        else:
+            prop.append(s)
+    model_bad = [s for s, c in codes if (c & 8) and not (c & CLASS_MASK)]
     return corr, prop, known, model_bad
+
+
+def listed_classes(pid, class_bits):
+    """class_bits: {bit: class name}.  -> {bit: finding} for the classes listed in known_findings.json"""
+    kf = core.load_known_findings()
+    by_class = {f["class"]: f for f in kf["findings"] if f["property"] == pid}
+    return {b: by_class[c] for b, c in class_bits.items() if c in by_class}
 
 
 class Run:
@@ -101,3 +121,153 @@ def trusted_base():
         "CPython 3.11 ast as independent parser; rustpython-parser trusted to agree on node ranges for the generated grammar (validated by the index dump comparison)",
         "modelled, not verified: DashMap (atomic calls, iteration order as oracle), rustpython-parser, Path::canonicalize (virtual paths are their own canonical form), the file system (virtual workspaces: no file exists on disk)",
     ]
+
+
+def drive_ws(r, P):
+    """Generic driver for workspace-case properties.  P provides: PID, MODULE, VERDICT,
+    CLASS_BITS {bit: class name}, make_case(cid, rnd, stdlib), corpus(stdlib) -> cases,
+    NCASES (quick, thorough), RULE, nontrivial(case) -> hashable key or None,
+    ASSUMPTIONS, optional extra_targets."""
+    import collections, random
+    from common_ws import evaluate
+    pid = P.PID
+    quick = r.tier == "quick"
+    proof_ok = proof_stage(r, getattr(P, "EXTRA_TARGETS", ()))
+    stdlib = set(core.tables()["stdlib_modules"])
+    h1, _ = core.build_harness()
+    rnd = random.Random(r.seed)
+    n = int(os.environ.get("VERIF_CASES", P.NCASES[0] if quick else P.NCASES[1]))
+    listed = listed_classes(pid, P.CLASS_BITS)
+
+    def explore(cases, name):
+        meta = evaluate(r, name, P.MODULE, P.VERDICT, cases, stdlib, h1)
+        out = []
+        for c in cases:
+            m = meta[c["id"]]
+            if m.get("hang"):
+                out.append((c, m, [], ["hang"], {}, []))
+                continue
+            corr, prop, known, model_bad = classify(m["codes"], listed.keys())
+            if m["panics"]:
+                prop = prop + ["panic@%d" % i for i, _ in m["panics"]]
+            out.append((c, m, corr, prop, known, model_bad))
+        return out
+
+    corpus = P.corpus(stdlib) if hasattr(P, "corpus") else []
+    for i, c in enumerate(corpus):
+        c["id"] = 100000 + i
+    cases = corpus + [P.make_case(i, rnd, stdlib) for i in range(n)]
+    results = explore(cases, pid)
+    prop_fail = [x for x in results if x[3]]
+    corr_fail = [x for x in results if x[2]]
+    searched_more = 0
+    if (corr_fail or not proof_ok) and not prop_fail:
+        # the tie is broken but no failing input yet: search harder before reporting
+        extra_n = int(os.environ.get("VERIF_SEARCH_CASES", 6 * n if quick else 2 * n))
+        rnd2 = random.Random(r.seed * 7919 + 13)
+        more = [P.make_case(200000 + i, rnd2, stdlib) for i in range(extra_n)]
+        res2 = explore(more, pid + "_search")
+        searched_more = len(more)
+        results += res2
+        prop_fail = [x for x in results if x[3]]
+        corr_fail = [x for x in results if x[2]]
+
+    for (c, m, corr, prop, known, mb) in prop_fail[:3]:
+        c2, m2, prop2 = shrink(P, c, m, prop, stdlib, h1, listed) if hasattr(P, "shrinkable") else (c, m, prop)
+        steps = [s for s in prop2 if isinstance(s, int)]
+        r.violation({"property": pid, "why": "the spec rejects the implementation's answer",
+                     "case": c2, "failing_steps": prop2,
+                     "failing": [{"step": c2["steps"][s], "impl_answer": m2["obs"][s]} for s in steps[:10]],
+                     "seed": r.seed}, "prop_%s" % c["id"])
+    if corr_fail and not prop_fail:
+        c, m, corr = corr_fail[0][0], corr_fail[0][1], corr_fail[0][2]
+        r.violation({"property": pid, "broken": "corr:%s (model %s and implementation disagree; the spec accepts every implementation answer explored)" % (pid, P.MODULE),
+                     "case": c, "disagreeing_steps": corr,
+                     "disagreeing": [{"step": c["steps"][s], "impl_answer": m["obs"][s]} for s in corr[:10]],
+                     "searched_extra_cases": searched_more, "seed": r.seed}, "corr_%s" % c["id"], no_input=True)
+    if not proof_ok and not r.violations:
+        r.violation({"property": pid, "broken": "thm:PLS.Properties.%s" % pid, "detail": {k: v for k, v in r.proof.items() if k != "cone"},
+                     "searched_extra_cases": searched_more, "seed": r.seed}, "proof", no_input=True)
+
+    hits = collections.Counter()
+    for x in results:
+        for b, steps in x[4].items():
+            hits[P.CLASS_BITS[b]] += len(steps)
+    for b, f in listed.items():
+        r.known_lines.append("KNOWN-FINDING: property=%s %s [class %s; %d hits this run]" % (pid, f["what"], f["class"], hits[f["class"]]))
+    hyp_unmet = sum(1 for x in results if not x[1].get("hang") for (_, c) in x[1]["codes"] if c & 4)
+    if hyp_unmet:
+        r.notes.append("theorem hypothesis unmet on %d queries" % hyp_unmet)
+    unmodelled = sum(1 for x in results if x[5])
+    if unmodelled:
+        r.notes.append("%d cases where the model's own answer fails the spec outside every class" % unmodelled)
+
+    tagc = collections.Counter()
+    nontrivial = set()
+    nq = 0
+    for c in cases:
+        for t in c.get("tags", []):
+            tagc[t] += 1
+        nq += c.get("queries", 0)
+        k = P.nontrivial(c)
+        if k is not None:
+            nontrivial.add(k)
+    r.coverage = {
+        "obligations": r.proof.get("statements", 0), "discharged": r.proof.get("qed", 0) if proof_ok else 0,
+        "checker_cmd": "make -C coq theories/Properties/%s.vo (coqc 8.16.1, full .vo build) + Print Assumptions + hygiene grep" % pid,
+        "trusted_base": trusted_base(),
+        "evaluations": nq, "distinct_nontrivial": len(nontrivial), "rule": P.RULE,
+        "samples": [{"id": c["id"], "tags": c.get("tags"), "steps": c["steps"][:4]} for c in cases[:2]],
+        "cases": len(cases), "corpus_cases": len(corpus), "extra_search_cases": searched_more,
+        "known_class_hits": dict(hits), "theorem_hypothesis_unmet": hyp_unmet, "correspondence_failures": len(corr_fail),
+        "input_distribution": dict(tagc),
+        "proof": {k: v for k, v in r.proof.items() if k != "cone"},
+    }
+    r.assumptions = list(P.ASSUMPTIONS)
+    return r.finish()
+
+
+def shrink(P, c, m, prop, stdlib, h1, listed):
+    """structural delta-debugging: drop analysed files / queries while the spec still
+    rejects some implementation answer."""
+    from common_ws import evaluate
+    import copy
+
+    def failing(case):
+        meta = evaluate(None, P.PID + "_shrink", P.MODULE, P.VERDICT, [case], stdlib, h1)
+        mm = meta[case["id"]]
+        if mm.get("hang"):
+            return mm, ["hang"]
+        corr, prop, known, mb = classify(mm["codes"], listed.keys())
+        if mm["panics"]:
+            prop = prop + ["panic@%d" % i for i, _ in mm["panics"]]
+        return mm, prop
+
+    best, bm, bp = c, m, prop
+    # keep only the first failing query, then try dropping each analyse step
+    first = next((s for s in prop if isinstance(s, int)), None)
+    if first is not None:
+        cand = copy.deepcopy(best)
+        cand["steps"] = [st for i, st in enumerate(best["steps"]) if "op" in st or i == first]
+        mm, pp = failing(cand)
+        if pp:
+            best, bm, bp = cand, mm, pp
+    changed = True
+    rounds = 0
+    while changed and rounds < 40:
+        changed = False
+        rounds += 1
+        for i, st in enumerate(best["steps"]):
+            if st.get("op") not in ("analyze", "mark_plugin", "close"):
+                continue
+            cand = copy.deepcopy(best)
+            del cand["steps"][i]
+            try:
+                mm, pp = failing(cand)
+            except Exception:
+                continue
+            if pp:
+                best, bm, bp = cand, mm, pp
+                changed = True
+                break
+    return best, bm, bp
